@@ -349,6 +349,14 @@ func runC15(w *mon.W) {
 		default:
 			rec := randGFF(r, 1+r.Intn(600))
 			lay := rec.writeGFF(r)
+			if r.Intn(10) == 0 {
+				// a FASTA section that stops short of the declared region: features near the end overhang it
+				if i := strings.Index(lay, "##FASTA"); i > 0 && len(lay)-i > 60 {
+					lay = strings.TrimRight(lay, "\n")
+					lay = lay[:len(lay)-1-r.Intn(30)]
+					w.Add("gff_inputs_with_short_fasta", 1)
+				}
+			}
 			if r.Intn(8) == 0 {
 				// an annotation-only file: features without the sequence they lie on
 				if i := strings.Index(lay, "##FASTA"); i > 0 {
